@@ -84,21 +84,26 @@ Definition blas_scal (k : T) (x : list T) : list T := map (fun u => k * u) x.
    iff out is contiguous in that order ([bi_view]); the BLAS routines update their
    argument in place iff moreover the dtype is one BLAS handles ([bi_call]),
    otherwise they work on a converted copy and the update is lost. *)
-Record blasinfo := { bi_view : bool; bi_call : bool }.
+Record blasinfo := { bi_view : bool; bi_call : bool; bi_full : bool; bi_n : nat }.
+(* the BLAS routines receive the vector length n = `size`: they process the first n entries of the
+   raveled arrays; [bi_full]: n is the number of entries *)
+Definition take_first {A} (n : nat) (new old : list A) : list A := firstn n new ++ skipn n old.
+Definition blas_write {A} (bi : blasinfo) (new old : list A) : list A :=
+  if bi_full bi then new else take_first (bi_n bi) new old.
 
 Definition do_scal (r : regime) (bi : blasinfo) (k : T) (t : nat) (s : store) : store :=
   match r with
-  | Blas => if bi_call bi then upd s t (blas_scal k (s t)) else s
+  | Blas => if bi_call bi then upd s t (blas_write bi (blas_scal k (s t)) (s t)) else s
   | _ => run_ps t t k fallback_scal s
   end.
 Definition do_axpy (r : regime) (bi : blasinfo) (k : T) (src tgt : nat) (s : store) : store :=
   match r with
-  | Blas => if bi_call bi then upd s tgt (blas_axpy k (s src) (s tgt)) else s
+  | Blas => if bi_call bi then upd s tgt (blas_write bi (blas_axpy k (s src) (s tgt)) (s tgt)) else s
   | _ => run_ps src tgt k fallback_axpy s
   end.
 Definition do_copy (r : regime) (bi : blasinfo) (src tgt : nat) (s : store) : store :=
   match r with
-  | Blas => if bi_call bi then upd s tgt (s src) else s
+  | Blas => if bi_call bi then upd s tgt (blas_write bi (s src) (s tgt)) else s
   | _ => run_ps src tgt nzero fallback_copy s
   end.
 Definition do_fill (r : regime) (bi : blasinfo) (z : Z) (t : nat) (s : store) : store :=
@@ -174,15 +179,17 @@ Fixpoint lincomb_fuel (fuel : nat) (cast : T -> T) (r : regime) (bi : blasinfo) 
    [fl] = is_floating_dtype(dtype); [bdt] = type code and byte order of the dtype;
    [flags] = (c_contiguous, f_contiguous) of x1.data, x2.data, out.data.
    All arrays of one tensor space have the same dtype. *)
-Definition blas_info (bdt : dtinfo) (flags : list (bool * bool)) : blasinfo :=
+Definition blas_info (bdt : dtinfo) (flags : list (bool * bool)) (size total : Z) : blasinfo :=
   let fo := nth 2 flags (false, false) in
   let view := match blas_ravel_order (snd fo) with OrdF => snd fo | OrdC => fst fo end in
-  {| bi_view := view; bi_call := view && native_blas bdt |}.
+  {| bi_view := view; bi_call := view && native_blas bdt; bi_full := Z.eqb size total; bi_n := Z.to_nat size |}.
 
-(* [size] is x1.size; it only selects the regime *)
-Definition lincomb_impl_sz (cast : T -> T) (fl : bool) (bdt : dtinfo) (flags : list (bool * bool)) (size : Z)
+(* [total] is x1.size, the number of entries; `size` is computed from it (or from len(x1)) as the
+   regenerated [size_expr] says; it selects the regime and is the vector length handed to BLAS *)
+Definition lincomb_impl_sz (cast : T -> T) (fl : bool) (bdt : dtinfo) (flags : list (bool * bool)) (total : Z)
            (a : T) (x1 : nat) (b : T) (x2 : nat) (out : nat) (s : store) : outcome :=
-  lincomb_fuel 2 cast (regime_of size fl (blas_applicable true bdt size flags)) (blas_info bdt flags)
+  let size := size_of size_expr total (dt_len0 bdt) in
+  lincomb_fuel 2 cast (regime_of size fl (blas_applicable true bdt total flags)) (blas_info bdt flags size total)
     {| e_a := a; e_b := b; e_x1 := x1; e_x2 := x2; e_out := out |} s.
 Definition lincomb_impl (cast : T -> T) (fl : bool) (bdt : dtinfo) (flags : list (bool * bool))
            (a : T) (x1 : nat) (b : T) (x2 : nat) (out : nat) (s : store) : outcome :=
